@@ -184,12 +184,84 @@ def t_distinct(f):
     return [Group([C(n) for n in f.names], Take(1))]
 
 
+def t_take_all(f):
+    return [Take(1, None)]
+
+
+def t_group_take_all(f):
+    need(f.all_ref() and 1 <= len(f.cols) <= 3)
+    return [Group([C(n) for n in f.names], Take(1, None))]
+
+
+def t_group_take_open(f):
+    i = f.ints(); need(len(i) >= 2)
+    return [Group([C(i[0])], Take(1, None))]
+
+
 def t_append(f):
     need(len(f.cols) == 2)
     return [Append([From(CFG["u"]), Select(*CFG["ucols"])])]
 
 
+def t_derive_case(f):
+    i = f.ints(); need(len(i) >= 2)
+    return [Derive(**{fresh("k"): Case((C(i[0]) > 0, C(i[1])), (True, 0))})]
+
+
+def t_filter_in(f):
+    i = f.ints(); need(i)
+    return [Filter(In(C(i[0]), 0, 5))]
+
+
+def t_filter_or_null(f):
+    i = f.ints(); need(len(i) >= 2)
+    return [Filter((C(i[0]) == None) | (C(i[1]) > 0))]  # noqa: E711
+
+
+def t_derive_coalesce(f):
+    i = f.ints(); need(len(i) >= 2)
+    return [Derive(**{fresh("n"): C(i[1]).coalesce(0) + 1})]
+
+
+def t_group2_agg(f):
+    i = f.ints(); need(len(i) >= 3)
+    return [Group([C(i[0]), C(i[1])], Aggregate(**{fresh("n"): Fn("count", C(i[2])), fresh("m"): Fn("max", C(i[2]))}))]
+
+
+def t_join_v(f):
+    need(sum(1 for c in f.cols if c.name == "a") == 1)
+    need(all(c.rel != "v" for c in f.cols) and CFG["t"] == "t")
+    return [Join("v", "==a")]
+
+
+def t_join_right(f):
+    return t_join_inner(f, "right")
+
+
+def t_join_full(f):
+    return t_join_inner(f, "full")
+
+
+def t_group_win_sum(f):
+    i = f.ints(); need(len(i) >= 2)
+    return [Group([C(i[0])], Derive(**{fresh("g"): Fn("sum", C(i[1])), fresh("c"): Fn("count", C(i[1]))}))]
+
+
+def t_win_lag(f):
+    i = f.ints(); need(f.ordered and len(i) >= 2)
+    return [Derive(**{fresh("l"): Fn("lag", 1, C(i[1]))})]
+
+
+def t_win_expanding(f):
+    i = f.ints(); need(f.ordered and len(i) >= 2)
+    return [Window(Derive(**{fresh("cum"): Fn("sum", C(i[1]))}), expanding=True)]
+
+
 ALPHABET = {
+    "derive_case": t_derive_case, "filter_in": t_filter_in, "filter_or_null": t_filter_or_null, "derive_coalesce": t_derive_coalesce,
+    "group2_agg": t_group2_agg, "join_v": t_join_v, "join_right": t_join_right, "join_full": t_join_full, "group_win_sum": t_group_win_sum,
+    "win_lag": t_win_lag, "win_expanding": t_win_expanding, "take_all": t_take_all, "group_take_all": t_group_take_all,
+    "group_take_open": t_group_take_open,
     "derive_add": t_derive_add, "derive_mix": t_derive_mix,
     "filter_gt": t_filter_gt, "filter_last": t_filter_last, "filter_null": t_filter_null,
     "sort_asc": t_sort_asc, "sort_desc2": t_sort_desc2, "sort_last_desc": t_sort_last_desc,
@@ -203,6 +275,9 @@ ALPHABET = {
 CFG = {"t": "t", "u": "u", "cols": ("a", "b", "c"), "ucols": ("a", "b"), "schema": None}
 
 HEADS = {
+    # (all values distinct and non-null: a literal instance is fixed, so ties/NULLs in it would make every
+    #  positional precondition unsatisfiable; NULLs and duplicates are covered by the symbolic base tables)
+    "lit": lambda: [FromLit([{"a": 1, "b": 2, "c": 3}, {"a": 4, "b": -1, "c": 0}, {"a": -2, "b": 5, "c": 7}])],
     "wild": lambda: [From(CFG["t"])],
     "sel": lambda: [From(CFG["t"]), Select(*CFG["cols"])],
 }
@@ -243,6 +318,11 @@ def enumerate_let_family(max_len, let_names=None, only_names=None):
             CFG.update({"t": "x", "self": "x", "lets": [("x", LETS[ln])]})
             for L in range(0, max_len + 1):
                 for seq in itertools.product(names, repeat=L):
+                    # positional window functions that would have to take their order from the let-bound
+                    # relation's own sort are left out (not documented whether that sort orders them)
+                    first_sort = min([i for i, s_ in enumerate(seq) if s_.startswith("sort")] or [99])
+                    if any(s_ in ("rownum", "win_lag", "win_expanding") and i < first_sort for i, s_ in enumerate(seq)):
+                        continue
                     pipe = build("wild", seq, ALPHABET_LET)
                     if pipe is None:
                         continue
@@ -296,7 +376,7 @@ def family_c01(tier, seed):
     out = []
     # (positional window functions directly on a let-bound relation are left out: whether the relation's own
     #  sort also orders `row_number` there is not documented)
-    out += [x for x in enumerate_let_family(1) if "rownum" not in x[0]]
+    out += list(enumerate_let_family(1))
     letn = ["sort_desc2", "sort_last_desc", "take_n", "take_range", "filter_gt", "group_agg", "group_take", "join_self_agg", "join_self",
             "join_left", "select_2", "derive_add", "agg"]
     l2 = list(enumerate_let_family(2, only_names=letn))
@@ -307,6 +387,7 @@ def family_c01(tier, seed):
         rr.shuffle(l3)
         l2, l3 = l2[:300], l3[:150]
     out += l2 + l3 + targeted_let_family()
+    out += list(enumerate_family(1 if tier == "quick" else 2, heads=("lit",)))
     if tier == "quick":
         out += list(enumerate_family(2))
         rnd = random.Random(seed)
@@ -612,9 +693,12 @@ def family_c04(tier, seed):
               ("rows-2..-1", dict(rows=(-2, -1))), ("rows1..2", dict(rows=(1, 2))), ("rows..", dict(rows=(None, None))),
               ("rolling2", dict(rolling=2)), ("rolling1", dict(rolling=1)), ("rolling3", dict(rolling=3)), ("expanding", dict(expanding=True)),
               ("range-1..1", dict(range=(-1, 1))), ("range..0", dict(range=(None, 0))), ("range0..2", dict(range=(0, 2))),
-              ("range-2..-1", dict(range=(-2, -1)))]
+              ("range-2..-1", dict(range=(-2, -1))),
+              ("rows..-1", dict(rows=(None, -1))), ("rows1..", dict(rows=(1, None))), ("range..-1", dict(range=(None, -1))), ("range1..", dict(range=(1, None))),
+              ("rows..1", dict(rows=(None, 1))), ("rows-1..", dict(rows=(-1, None)))]
     if tier == "quick":
-        frames = [f for f in frames if f[0] in ("none", "rows-1..1", "rows..0", "rows1..2", "rolling2", "expanding", "range-1..1", "range0..2")]
+        frames = [f for f in frames if f[0] in ("none", "rows-1..1", "rows..0", "rows1..2", "rolling2", "expanding", "range-1..1", "range0..2",
+                                                "rows..-1", "rows1..", "range1..", "rows-1..")]
     for fn in WIN_FUNCS:
         for part in (None, "a"):
             for order in (None, "c", "-c"):
